@@ -227,7 +227,7 @@ impl<'r> Builder<'r> {
             let n = 1 + self.rng.usize(12);
             self.rng.bytes(n)
         };
-        self.g.prog.assets.push(Asset { name, policy, asset_name, name_as_string: as_string });
+        self.g.prog.assets.push(Asset { name, policy, asset_name, name_as_string: as_string, raw_policy: None, raw_asset_name: None });
         self.g.prog.assets.len() - 1
     }
 
